@@ -102,8 +102,45 @@ pub fn worst_stream(props: Props) -> WorstStream {
 }
 
 /// Fixed C05 cases: the worst-case stream cut at every offset around its last symbol.
-pub fn worst_case_stream_cases() -> Vec<Case> {
+/// a long stream (about 1.4 MiB of output, ~40 KB compressed with an incompressible stretch)
+fn long_stream_cases() -> Vec<Case> {
+    let mut ops: Vec<Op> = Vec::new();
+    let mut x = 99991u32;
+    for _ in 0..30_000 {
+        x = x.wrapping_mul(1664525).wrapping_add(1013904223);
+        ops.push(Op::Lit((x >> 24) as u8));
+    }
+    for i in 0..5000u32 {
+        ops.push(Op::Match { dist: 1 + (i * 7919) % 29_000, len: 273 });
+    }
+    let props = Props::new(3, 0, 2);
+    let enc = encode_lzma(props, &ops, Some(2));
     let mut v = Vec::new();
+    for dict in [1u32 << 16, 1 << 23] {
+        let mut bytes = lzma_header(props, dict, None);
+        let header_len = bytes.len();
+        bytes.extend_from_slice(&enc.payload);
+        let n = bytes.len();
+        let sym_ends: Vec<usize> = enc.table.iter().map(|t| header_len + t.consumed as usize).collect();
+        for k in [65536usize, 8192, 4099, 19, 1] {
+            let mut pieces: Vec<usize> = std::iter::repeat(k).take(n / k).collect();
+            pieces.push(n % k);
+            v.push(Case {
+                input: bytes.clone(),
+                opts: Opts::with(USize::ReadFromHeader),
+                pieces,
+                header_len,
+                sym_ends: sym_ends.clone(),
+                first_mut_at: usize::MAX,
+                kind: "valid".into(),
+            });
+        }
+    }
+    v
+}
+
+pub fn worst_case_stream_cases() -> Vec<Case> {
+    let mut v = long_stream_cases();
     for props in [Props::new(0, 0, 0), Props::new(3, 0, 0), Props::new(8, 4, 0)] {
         let w = worst_stream(props);
         let n = w.bytes.len();
